@@ -187,7 +187,7 @@ class CallMixin(object):
                                     lambda s2, vals: self.ok(s2, mk_none()))
             # mutating method on an l-value container: write back
             if f.attr in MUTATORS and self.is_lvalue(f.value):
-                return self.mutating_call(e, st)
+                return self.run_ghost_at(e, self.mutating_call(e, st))
         if isinstance(f, ast.Name) and f.id == 'dict' and 'dict' not in st.env and len(e.args) == 1 and \
                 isinstance(e.args[0], (ast.ListComp, ast.GeneratorExp)) and \
                 isinstance(e.args[0].elt, ast.Tuple) and len(e.args[0].elt.elts) == 2:
@@ -210,16 +210,17 @@ class CallMixin(object):
             return out
         f = e.func
         name = f.attr if isinstance(f, ast.Attribute) else (f.id if isinstance(f, ast.Name) else None)
-        stmts = c.ghost_at.get(name)
-        if not stmts:
+        stmts = c.ghost_at.get(name) or []
+        stmts_always = c.ghost_at.get((name or '') + '!') or []      # 'callee!': also when the call raised
+        if not stmts and not stmts_always:
             return out
         res = []
         for r in out:
-            if r.exc is not None:
+            if r.exc is not None and not stmts_always:
                 res.append(r)
                 continue
             st = r.st
-            for text in stmts:
+            for text in (stmts_always if r.exc is not None else list(stmts) + list(stmts_always)):
                 tree = ast.parse(text.strip()).body[0]
                 if not isinstance(tree, ast.Assign):
                     self.oos('ghost_at statement must be an assignment: %r' % text, e)
@@ -244,7 +245,7 @@ class CallMixin(object):
                     st = self.write_field(st, obj.z, obj.ty.cls, tgt.attr, val, e)
                 else:
                     self.oos('ghost_at statement must assign a declared ghost or ghost field: %r' % text, e)
-            res.append(Res(st, r.val))
+            res.append(Res(st, r.val, r.exc))
         return res
 
     def dict_of_pairs(self, e, st):
@@ -269,11 +270,13 @@ class CallMixin(object):
                 j = z3.Int(fresh_name('dj'))
                 sb = self.bind_target(s2.copy(), g.target, inf['elem'](s2, j), g)
                 self.spec_mode += 1
+                self.binder_stack = getattr(self, 'binder_stack', []) + [j]
                 try:
                     kv = self.ev1(comp.elt.elts[0], sb)
                     vv = self.ev1(comp.elt.elts[1], sb)
                 finally:
                     self.spec_mode -= 1
+                    self.binder_stack = self.binder_stack[:-1]
                 if len(zsorts(kv.ty)) != 1:
                     self.oos('dict key sort %r' % (kv.ty,), e)
                 if len(zsorts(vv.ty)) != 1:
@@ -437,6 +440,23 @@ class CallMixin(object):
                 if f is not None:
                     res.append((f, c, None, 'IndexError'))
                 return res
+            if meth == 'pop' and len(args) <= 1:
+                n = self.L_len(c)
+                if args:
+                    i0 = self.coerce(args[0], INT)
+                    if i0 is None:
+                        self.oos('list.pop with index of sort %r' % (args[0].ty,), node)
+                    i = z3.If(i0.z < 0, i0.z + n, i0.z)
+                else:
+                    i = n - 1
+                t, f = self.branch(st, z3.And(0 <= i, i < n))
+                res = []
+                if t is not None:
+                    t, newl = self.L_delete(t, c, i)
+                    res.append((t, newl, self.L_at(c, i), None))
+                if f is not None:
+                    res.append((f, c, None, 'IndexError'))
+                return res
             if meth == 'remove':
                 a = self.coerce(args[0], ty.elem)
                 has = self.L_contains(c, a.z)
@@ -444,12 +464,8 @@ class CallMixin(object):
                 res = []
                 if t is not None:
                     t, i = self.L_index(t, c, a.z)
-                    n = self.L_len(c)
-                    newa = z3.Const(fresh_name('rm'), c.t[0].sort())
-                    j = z3.Int(fresh_name('j'))
-                    t = t.assume(z3.ForAll([j], z3.Implies(z3.And(0 <= j, j < n - 1), z3.Select(newa, j) ==
-                                 z3.If(j < i, z3.Select(c.t[0], j), z3.Select(c.t[0], j + 1)))))
-                    res.append((t, SV(ty, [newa, n - 1]), mk_none(), None))
+                    t, newl = self.L_delete(t, c, i)
+                    res.append((t, newl, mk_none(), None))
                 if f is not None:
                     res.append((f, c, None, 'ValueError'))
                 return res
@@ -465,6 +481,20 @@ class CallMixin(object):
                 a = self.coerce(args[0], ty.elem)
                 return [(st, self.set_del(c, a.z), mk_none(), None)]
         self.oos('mutating method %s on %r' % (meth, ty), node)
+
+    def L_delete(self, st, c, i):
+        """the list without its element at index i (0 <= i < len assumed by the caller)"""
+        n = self.L_len(c)
+        newa = z3.Const(fresh_name('rm'), c.t[0].sort())
+        j = z3.Int(fresh_name('j'))
+        st = st.assume(
+            FA([j], z3.Implies(z3.And(0 <= j, j < i), z3.Select(newa, j) == z3.Select(c.t[0], j)),
+               patterns=[z3.Select(newa, j), z3.Select(c.t[0], j)]),
+            FA([j], z3.Implies(z3.And(i <= j, j < n - 1), z3.Select(newa, j) == z3.Select(c.t[0], j + 1)),
+               patterns=[z3.Select(newa, j)]),
+            FA([j], z3.Implies(z3.And(i < j, j < n), z3.Select(newa, j - 1) == z3.Select(c.t[0], j)),
+               patterns=[z3.Select(c.t[0], j)]))
+        return st, SV(c.ty, [newa, n - 1])
 
     def dict_update(self, st, c, src):
         ty = c.ty
